@@ -61,11 +61,13 @@ type Item struct {
 	K  string    `json:"k,omitempty"`  // tick: "h" | "d"
 	SC []Outcome `json:"sc,omitempty"` // tick: DA answers (then cancellation);  loop: answers to header calls
 	SD []Outcome `json:"sd,omitempty"` // loop: answers to data calls
+	Q  [][]Outcome `json:"q,omitempty"` // lpublish: iterations of the data submission loop (one script each) that run WHILE block production is inside numWaitingData, right after it has read the pending range
 }
 type Replay struct {
 	Seed    int64  `json:"seed"`
 	Case    int    `json:"case"`
 	Init    uint64 `json:"init"`
+	Limit   uint64 `json:"limit,omitempty"` // config.Node.MaxPendingHeadersAndData of the node (0 = no limit)
 	History []Item `json:"history"`
 }
 
@@ -339,6 +341,71 @@ func genLong(r *rand.Rand, idx int) (uint64, []Item) {
 	return init, closingPhase(h)
 }
 
+// pending-limit stream: the node runs with MaxPendingHeadersAndData = L (1..4), so block production's pending-limit
+// check calls PendingData.numWaitingData once L data items are pending — the SECOND writer of the data watermark
+// (it steps over empty items right above the watermark).  Every block is an item "lpublish" = one call of the real
+// publishBlockInternal (it may refuse); in about half of them iterations of the data submission loop (Q) run INSIDE
+// numWaitingData, after it has read the pending range (a store wrapper runs them when the first pending item is
+// fetched): the two writers of the watermark interleaved.  Model item: WPublish (Model/SubmitterWaiting.v).
+func genWaitScript(r *rand.Rand) []Outcome {
+	all := Outcome{O: "accept", K: acceptEverything}
+	switch x := r.Intn(100); {
+	case x < 30:
+		return []Outcome{all}
+	case x < 55: // a prefix is accepted, then the round ends (the script's end = cancellation)
+		return []Outcome{{O: "accept", K: uint64(1 + r.Intn(2))}}
+	case x < 65:
+		return []Outcome{{O: "accept", K: uint64(1 + r.Intn(2))}, {O: "cancel"}}
+	case x < 75:
+		return []Outcome{{O: "accept", K: uint64(1 + r.Intn(2))}, all}
+	case x < 85:
+		return []Outcome{{O: "fail", F: fkinds[r.Intn(len(fkinds)-2)]}, all}
+	case x < 92:
+		return []Outcome{{O: "acklost", K: uint64(1 + r.Intn(2)), F: "err"}, all}
+	default:
+		return []Outcome{{O: "cancel"}}
+	}
+}
+
+func genWaiting(r *rand.Rand) (uint64, uint64, []Item) {
+	init := uint64(1)
+	if x := r.Intn(100); x >= 70 {
+		init = []uint64{2, 7}[r.Intn(2)]
+	}
+	limit := uint64(2 + r.Intn(3))
+	if r.Intn(10) == 0 {
+		limit = 1
+	}
+	pEmpty := []float64{0.3, 0.5, 0.7}[r.Intn(3)]
+	var h []Item
+	n := 8 + r.Intn(12)
+	for len(h) < n {
+		switch x := r.Intn(100); {
+		case x < 70:
+			it := Item{T: "lpublish", NE: r.Float64() >= pEmpty}
+			if len(h) >= 2 && r.Intn(100) < 65 {
+				for i, k := 0, 1+r.Intn(2); i < k; i++ {
+					it.Q = append(it.Q, genWaitScript(r))
+				}
+			}
+			h = append(h, it)
+			if r.Intn(100) < 80 { // keep the headers below the limit, otherwise they refuse before the data is looked at
+				h = append(h, Item{T: "tick", K: "h", SC: acceptAll(2)})
+			}
+		case x < 78:
+			h = append(h, Item{T: "tick", K: "d", SC: genWaitScript(r)})
+		case x < 86:
+			h = append(h, Item{T: "tick", K: "h", SC: genWaitScript(r)})
+		case x < 94:
+			h = append(h, Item{T: "restart"})
+		default:
+			h = append(h, Item{T: "loop", SC: acceptAll(3), SD: genWaitScript(r)})
+		}
+	}
+	h = append(h, Item{T: "tick", K: "h", SC: acceptAll(4)}, Item{T: "tick", K: "d", SC: acceptAll(4)})
+	return init, limit, h
+}
+
 // ---- doubles -----------------------------------------------------------------------------------
 
 type seqDouble struct {
@@ -531,9 +598,34 @@ func (d *daDouble) GasMultiplier(ctx context.Context) (float64, error) { return 
 
 // ---- the node under test -------------------------------------------------------------------------
 
+// the real store, plus: a count of the block reads below a given height, and a one-shot hook that runs right after
+// the block of a chosen height was read (used to place iterations of the data submission loop at an exact point of
+// block production's numWaitingData: inside getPendingData, after the watermark and the store height were read)
+type hookStore struct {
+	store.Store
+	hookHeight uint64
+	hook       func()
+	below      uint64 // reads of heights below this one are counted
+	nBelow     int
+}
+
+func (s *hookStore) GetBlockData(ctx context.Context, height uint64) (*types.SignedHeader, *types.Data, error) {
+	h, d, err := s.Store.GetBlockData(ctx, height)
+	if height < s.below {
+		s.nBelow++
+	}
+	if s.hook != nil && height == s.hookHeight {
+		f := s.hook
+		s.hook = nil
+		f()
+	}
+	return h, d, err
+}
+
 type world struct {
 	r       *rand.Rand
 	kv      ds.Batching
+	hs      *hookStore
 	st      store.Store
 	sig     signer.Signer
 	pub     crypto.PubKey
@@ -551,7 +643,7 @@ type rndReader struct{ r *rand.Rand }
 
 func (x rndReader) Read(p []byte) (int, error) { return x.r.Read(p) }
 
-func newWorld(r *rand.Rand, init uint64, rootDir string) (*world, error) {
+func newWorld(r *rand.Rand, init, limit uint64, rootDir string) (*world, error) {
 	w := &world{r: r, ctx: context.Background(), rootDir: rootDir}
 	priv, pub, err := crypto.GenerateEd25519Key(rndReader{r})
 	if err != nil {
@@ -569,7 +661,7 @@ func newWorld(r *rand.Rand, init uint64, rootDir string) (*world, error) {
 	w.cfg = config.DefaultConfig
 	w.cfg.RootDir = rootDir
 	w.cfg.Node.Aggregator = true
-	w.cfg.Node.MaxPendingHeadersAndData = 0
+	w.cfg.Node.MaxPendingHeadersAndData = limit
 	w.cfg.Node.BlockTime.Duration = time.Second
 	w.cfg.DA.BlockTime.Duration = daBlockTimeMs * time.Millisecond
 	w.cfg.DA.MempoolTTL = mempoolTTL
@@ -580,7 +672,8 @@ func newWorld(r *rand.Rand, init uint64, rootDir string) (*world, error) {
 
 // start = what a process start does for the block manager: NewManager on the datastore
 func (w *world) start() error {
-	w.st = store.New(w.kv)
+	w.hs = &hookStore{Store: store.New(w.kv)}
+	w.st = w.hs
 	w.seq = &seqDouble{}
 	lg := logging.Logger("c06")
 	logging.SetAllLoggers(logging.LevelFatal)
@@ -616,8 +709,42 @@ func (w *world) watermark(kind string) (uint64, *uint64) {
 
 // one block committed by the real publishBlockInternal; returns whether the committed block has transactions
 func (w *world) publish(ne bool, tx int) (bool, error) {
-	r := w.r
 	before := w.height()
+	w.nextBatch(ne, tx)
+	if err := w.m.VerifPublishBlock(w.ctx); err != nil {
+		return false, fmt.Errorf("publish failed: %w", err)
+	}
+	if w.height() != before+1 {
+		return false, fmt.Errorf("publish did not commit a block (height %d -> %d)", before, w.height())
+	}
+	return w.nonEmpty(before + 1), nil
+}
+
+// one iteration of the data submission loop body (submitter.go:53-69) through the hooks; returns the result class
+// (0 idle 1 nothing to submit 2 getPending error 3 nil 4 error) and the virtual time spent in submitDataToDA
+func (w *world) dataTick(sc []Outcome) (int, time.Duration) {
+	w.da.anyKind = true
+	w.da.script["*"] = append([]Outcome{}, sc...)
+	if w.m.VerifNumPendingData() == 0 {
+		return 0, 0
+	}
+	sds, err := w.m.VerifCreateSignedDataToSubmit(w.ctx)
+	if err != nil {
+		return 2, 0
+	}
+	if len(sds) == 0 {
+		return 1, 0
+	}
+	start := time.Now()
+	if err := w.m.VerifSubmitDataToDA(w.ctx, sds); err != nil {
+		return 4, time.Since(start)
+	}
+	return 3, time.Since(start)
+}
+
+// what the sequencer hands to the next publishBlockInternal
+func (w *world) nextBatch(ne bool, tx int) {
+	r := w.r
 	if ne {
 		n := 1 + r.Intn(3)
 		var txs [][]byte
@@ -633,13 +760,6 @@ func (w *world) publish(ne bool, tx int) (bool, error) {
 	} else {
 		w.seq.next = nil
 	}
-	if err := w.m.VerifPublishBlock(w.ctx); err != nil {
-		return false, fmt.Errorf("publish failed: %w", err)
-	}
-	if w.height() != before+1 {
-		return false, fmt.Errorf("publish did not commit a block (height %d -> %d)", before, w.height())
-	}
-	return w.nonEmpty(before + 1), nil
 }
 
 func (w *world) height() uint64 {
@@ -650,6 +770,8 @@ func (w *world) height() uint64 {
 // ---- running one history -------------------------------------------------------------------------
 
 type itemOut struct {
+	witem   bool // coqItem is already a term of type witem (publishBlockInternal under a pending limit)
+	lim     int  // witem: 2*(numWaitingData ran) + refused; 4 + refused when it cannot be told whether it ran; -1 = not compared
 	citem   bool // coqItem is already a term of type citem (iteration with in-flight commits)
 	left    int  // loop items: DA answers the loop did not ask for; -1 = not compared
 	hitem   bool // coqItem is already a term of type hitem (run-length item); otherwise an item, wrapped in HI
@@ -673,6 +795,10 @@ type caseResult struct {
 	nPartial   int
 	nAckLost   int
 	nInflight  int
+	nRefused   int
+	nWaitRan   int // publishBlockInternal calls in which numWaitingData ran
+	nInside    int // data iterations that ran inside numWaitingData
+	nInsideUp  int // ... of which raised the data watermark
 }
 
 func hasInflight(sc []Outcome) bool {
@@ -1080,7 +1206,7 @@ func (o *oracle) eventually(init uint64) {
 	}
 }
 
-func runCase(seed int64, c int, init uint64, hist []Item, rootDir string) (res *caseResult) {
+func runCase(seed int64, c int, init, limit uint64, hist []Item, rootDir string) (res *caseResult) {
 	res = &caseResult{}
 	var w *world
 	var or *oracle
@@ -1092,7 +1218,7 @@ func runCase(seed int64, c int, init uint64, hist []Item, rootDir string) (res *
 	}()
 	r := rand.New(rand.NewSource(seed*7919 + int64(c)*104729 + 17))
 	_ = os.RemoveAll(rootDir)
-	w, err := newWorld(r, init, rootDir)
+	w, err := newWorld(r, init, limit, rootDir)
 	if err != nil {
 		res.err = err
 		return
@@ -1125,7 +1251,7 @@ func runCase(seed int64, c int, init uint64, hist []Item, rootDir string) (res *
 				kinds = append(kinds, ne)
 			}
 			if it.N <= 1 {
-				io := itemOut{coqItem: "IPublish " + vgen.Bool(kinds[0]), res: -1, left: -1}
+				io := itemOut{coqItem: "IPublish " + vgen.Bool(kinds[0]), res: -1, left: -1, lim: -1}
 				mark(&io, true, "")
 				res.outs = append(res.outs, io)
 			} else {
@@ -1135,7 +1261,7 @@ func runCase(seed int64, c int, init uint64, hist []Item, rootDir string) (res *
 					for b < len(kinds) && kinds[b] == kinds[a] {
 						b++
 					}
-					io := itemOut{hitem: true, coqItem: "HPublishN " + vgen.Bool(kinds[a]) + " " + vgen.N(uint64(b-a)), res: -1, left: -1}
+					io := itemOut{hitem: true, coqItem: "HPublishN " + vgen.Bool(kinds[a]) + " " + vgen.N(uint64(b-a)), res: -1, left: -1, lim: -1}
 					if b == len(kinds) {
 						mark(&io, true, "")
 					}
@@ -1144,13 +1270,94 @@ func runCase(seed int64, c int, init uint64, hist []Item, rootDir string) (res *
 				}
 			}
 			or.afterItem(false)
+		case "lpublish":
+			// one call of the real publishBlockInternal under the pending limit.  The data iterations of it.Q run inside
+			// numWaitingData: the store wrapper runs them when getPendingData fetches the first pending item, i.e. after
+			// the watermark and the store height were read and before the loop over the items starts.  Armed only when
+			// that item is below the store height (publishBlockInternal itself reads the block AT the store height).
+			before := w.height()
+			dv, _ := w.watermark("d")
+			n0 := len(w.da.calls)
+			io := itemOut{witem: true, res: -1, left: -1, lim: -1}
+			fired := false
+			w.hs.below, w.hs.nBelow = before, 0
+			if len(it.Q) > 0 && dv+1 < before {
+				w.hs.hookHeight = dv + 1
+				w.hs.hook = func() {
+					fired = true
+					for _, sc := range it.Q {
+						v0, _ := w.watermark("d")
+						if rc, _ := w.dataTick(sc); rc == 2 {
+							or.getErrSeen = true
+						}
+						res.nInside++
+						if v1, _ := w.watermark("d"); v1 > v0 {
+							res.nInsideUp++
+						}
+					}
+				}
+			}
+			w.nextBatch(it.NE, it.TX)
+			err := w.m.VerifPublishBlock(w.ctx)
+			w.hs.hook = nil
+			ranWaiting := w.hs.nBelow > 0
+			w.hs.below = 0
+			if err != nil {
+				res.err = fmt.Errorf("publish under the limit failed: %w", err)
+				return
+			}
+			refused := w.height() == before
+			if !refused && w.height() != before+1 {
+				res.err = fmt.Errorf("publish under the limit: height %d -> %d", before, w.height())
+				return
+			}
+			kind := it.NE
+			if !refused {
+				kind = w.nonEmpty(before + 1)
+				res.chain = append(res.chain, kind)
+			} else {
+				res.nRefused++
+			}
+			if ranWaiting {
+				res.nWaitRan++
+			}
+			rf := 0
+			if refused {
+				rf = 1
+			}
+			switch {
+			case ranWaiting:
+				io.lim = 2 + rf
+			case dv+1 < before: // the pending data range has an item below the store height: numWaitingData would have read it
+				io.lim = rf
+			default:
+				io.lim = 4 + rf
+			}
+			var qs []string
+			if fired {
+				for _, sc := range it.Q {
+					qs = append(qs, scriptCoq(sc))
+				}
+				io.coqItem = "WPublish " + vgen.N(limit) + " " + vgen.Bool(kind) + " [" + vgen.List(qs) + "]"
+			} else {
+				io.coqItem = "WPublish " + vgen.N(limit) + " " + vgen.Bool(kind) + " []"
+			}
+			io.calls = append(io.calls, w.da.calls[n0:]...)
+			for _, c := range io.calls {
+				if c.kind != "d" {
+					or.fail("blob-not-faithful", fmt.Sprintf("a data submission carried blobs of kind %q", c.kind))
+				}
+			}
+			mark(&io, true, "")
+			res.outs = append(res.outs, io)
+			or.afterItem(false)
 		case "restart":
 			if err := w.start(); err != nil {
 				res.err = fmt.Errorf("restart failed: %w", err)
 				return
 			}
 			w.epoch++
-			io := itemOut{coqItem: "IRestart", res: -1, left: -1}
+			io := itemOut{coqItem: "IRestart", res: -1, left: -1, lim: -1}
 			mark(&io, true, "")
 			res.outs = append(res.outs, io)
 			or.afterItem(true)
@@ -1158,7 +1365,7 @@ func runCase(seed int64, c int, init uint64, hist []Item, rootDir string) (res *
 			w.da.anyKind = true
 			w.da.script["*"] = append([]Outcome{}, it.SC...)
 			n0 := len(w.da.calls)
-			io := itemOut{res: -1, left: -1}
+			io := itemOut{res: -1, left: -1, lim: -1}
 			var pubErr error
 			w.da.inflight = func(pubs []bool) []bool {
 				var obs []bool
@@ -1293,8 +1500,8 @@ func runCase(seed int64, c int, init uint64, hist []Item, rootDir string) (res *
 			w.da.onEmpty = map[string]func(){}
 			or.loopRetries("h", leftH, goneH, sleep)
 			or.loopRetries("d", leftD, goneD, sleep)
-			ioH := itemOut{coqItem: "ILoop KHeader " + scriptCoq(stripInflight(it.SC)), res: -1, left: leftH}
-			ioD := itemOut{coqItem: "ILoop KData " + scriptCoq(stripInflight(it.SD)), res: -1, left: leftD}
+			ioH := itemOut{coqItem: "ILoop KHeader " + scriptCoq(stripInflight(it.SC)), res: -1, left: leftH, lim: -1}
+			ioD := itemOut{coqItem: "ILoop KData " + scriptCoq(stripInflight(it.SD)), res: -1, left: leftD, lim: -1}
 			for _, c := range w.da.calls[n0:] {
 				if c.kind == "d" {
 					ioD.calls = append(ioD.calls, c)
@@ -1384,14 +1591,14 @@ func (io itemOut) coq() string {
 	if io.res >= 0 {
 		el = io.elapsed
 	}
-	return fmt.Sprintf("{| io_res := %s; io_el := %s; io_calls := %s; io_h := %s; io_d := %s; io_left := %s |}", opt(int64(io.res)), opt(el), vgen.List(cs), side(io.h), side(io.d), opt(int64(io.left)))
+	return fmt.Sprintf("{| io_res := %s; io_el := %s; io_calls := %s; io_h := %s; io_d := %s; io_left := %s; io_lim := %s |}", opt(int64(io.res)), opt(el), vgen.List(cs), side(io.h), side(io.d), opt(int64(io.left)), opt(int64(io.lim)))
 }
 
 // run a case inside a synctest bubble (virtual time)
-func runBubble(t *testing.T, seed int64, c int, init uint64, hist []Item, rootDir string) *caseResult {
+func runBubble(t *testing.T, seed int64, c int, init, limit uint64, hist []Item, rootDir string) *caseResult {
 	var res *caseResult
 	synctest.Test(t, func(t *testing.T) {
-		res = runCase(seed, c, init, hist, rootDir)
+		res = runCase(seed, c, init, limit, hist, rootDir)
 	})
 	return res
 }
@@ -1476,8 +1683,10 @@ func TestVerif(t *testing.T) {
 		seed int64
 		c    int
 		init uint64
+		lim  uint64
 		hist []Item
 		long bool // the long-stretch stream (genLong)
+		wait bool // the pending-limit stream (genWaiting)
 	}
 	var jobs []job
 	if e.Replay != "" {
@@ -1485,7 +1694,7 @@ func TestVerif(t *testing.T) {
 		if err := vgen.LoadReplay(e.Replay, &rp); err != nil {
 			t.Fatal(err)
 		}
-		jobs = append(jobs, job{seed: rp.Seed, c: rp.Case, init: rp.Init, hist: rp.History})
+		jobs = append(jobs, job{seed: rp.Seed, c: rp.Case, init: rp.Init, lim: rp.Limit, hist: rp.History})
 	} else {
 		files, _ := filepath.Glob("../corpus/C06/*.json")
 		if os.Getenv("VERIF_NO_CORPUS") != "" {
@@ -1494,7 +1703,7 @@ func TestVerif(t *testing.T) {
 		for _, f := range files {
 			var rp Replay
 			if vgen.LoadReplay(f, &rp) == nil {
-				jobs = append(jobs, job{seed: rp.Seed, c: rp.Case, init: rp.Init, hist: rp.History})
+				jobs = append(jobs, job{seed: rp.Seed, c: rp.Case, init: rp.Init, lim: rp.Limit, hist: rp.History})
 			}
 		}
 		// the long-stretch stream: nLong cases per run (quick) / per shard (thorough), the first one fixed
@@ -1508,6 +1717,17 @@ func TestVerif(t *testing.T) {
 		for c := 0; c < nLong; c++ {
 			jobs = append(jobs, job{seed: e.Seed, c: 1000000 + c, long: true})
 		}
+		// the pending-limit stream: nWait cases per run (quick) / per shard (thorough)
+		nWait := 60
+		if e.Tier == "thorough" {
+			nWait = 150
+		}
+		if e.N < 20 {
+			nWait = 0
+		}
+		for c := 0; c < nWait; c++ {
+			jobs = append(jobs, job{seed: e.Seed, c: 2000000 + c, wait: true})
+		}
 		for c := 0; c < e.N; c++ {
 			jobs = append(jobs, job{seed: e.Seed, c: c})
 		}
@@ -1519,14 +1739,18 @@ func TestVerif(t *testing.T) {
 	var cases, defsAll []string
 	distinct := map[string]bool{}
 	for ji, j := range jobs {
-		init, hist := j.init, j.hist
-		if hist == nil && j.long {
+		init, limit, hist := j.init, j.lim, j.hist
+		if hist == nil && j.wait {
+			init, limit, hist = genWaiting(caseRng(j.seed, j.c))
+			res.Count("stream:pending-limit")
+			res.Count(fmt.Sprintf("pending-limit:L=%d", limit))
+		} else if hist == nil && j.long {
 			init, hist = genLong(caseRng(j.seed, j.c), j.c-1000000)
 			res.Count("stream:long-stretch")
 		} else if hist == nil {
 			init, hist = genHistory(caseRng(j.seed, j.c), maxLen)
 		}
-		cr := runBubble(t, j.seed, j.c, init, hist, rootDir)
+		cr := runBubble(t, j.seed, j.c, init, limit, hist, rootDir)
 		if cr.err != nil {
 			t.Fatalf("harness error (seed %d case %d): %v", j.seed, j.c, cr.err)
 		}
@@ -1586,6 +1810,10 @@ func TestVerif(t *testing.T) {
 		res.Distribution["tick:exhausted-30-attempts"] += cr.nExhausted
 		res.Distribution["tick:getpending-error"] += cr.nGetErr
 		res.Distribution["block:committed-while-a-da-call-is-in-flight"] += cr.nInflight
+		res.Distribution["publish-under-limit:refused"] += cr.nRefused
+		res.Distribution["publish-under-limit:numWaitingData-ran"] += cr.nWaitRan
+		res.Distribution["data-iteration-inside-numWaitingData"] += cr.nInside
+		res.Distribution["data-iteration-inside-numWaitingData:raised-the-watermark"] += cr.nInsideUp
 		for _, it := range hist {
 			if it.T == "tick" && hasInflight(it.SC) {
 				res.Count("tick:with-in-flight-commits:" + it.K)
@@ -1606,12 +1834,14 @@ func TestVerif(t *testing.T) {
 		}
 		var items, outs []string
 		for _, o := range cr.outs {
-			if o.citem {
+			if o.witem {
 				items = append(items, o.coqItem)
+			} else if o.citem {
+				items = append(items, "WC ("+o.coqItem+")")
 			} else if o.hitem {
-				items = append(items, "CH ("+o.coqItem+")")
+				items = append(items, "WC (CH ("+o.coqItem+"))")
 			} else {
-				items = append(items, "CH (HI ("+o.coqItem+"))")
+				items = append(items, "WC (CH (HI ("+o.coqItem+")))")
 			}
 			outs = append(outs, o.coq())
 		}
@@ -1619,20 +1849,20 @@ func TestVerif(t *testing.T) {
 		if npub > 0 && cr.ncalls > 0 {
 			distinct[hc] = true
 		}
-		rp := Replay{Seed: j.seed, Case: j.c, Init: init, History: hist}
+		rp := Replay{Seed: j.seed, Case: j.c, Init: init, Limit: limit, History: hist}
 		for vi, sig := range cr.viol {
 			stillFails := func(h []Item) bool {
 				if len(h) == 0 {
 					return false
 				}
-				r2 := runBubble(t, j.seed, j.c, init, h, rootDir)
+				r2 := runBubble(t, j.seed, j.c, init, limit, h, rootDir)
 				return r2.err == nil && hasSig(r2, sig)
 			}
 			sh := vgen.Shrink(hist, stillFails)
 			sh = shrinkRuns(sh, stillFails)
 			sh = shrinkScripts(sh, stillFails)
 			res.Violations = append(res.Violations, vgen.Violation{Signature: sig, What: cr.what[vi], Case: ji,
-				Replay: Replay{Seed: j.seed, Case: j.c, Init: init, History: sh}})
+				Replay: Replay{Seed: j.seed, Case: j.c, Init: init, Limit: limit, History: sh}})
 		}
 		mod := fmt.Sprintf("Module C%d.\nDefinition c : ocase := {| oc_cfg := {| c_bt := %s; c_ttl := %s |}; oc_init := %s;\n oc_hist := %s;\n oc_outs := %s;\n oc_hacc := %s; oc_dacc := %s; oc_height := %s |}.\nEnd C%d.",
 			ji, vgen.N(daBlockTimeMs), vgen.N(mempoolTTL), vgen.N(init), vgen.List(items), vgen.List(outs), nlist(cr.hacc), nlist(cr.dacc), vgen.N(cr.height), ji)
@@ -1646,7 +1876,7 @@ func TestVerif(t *testing.T) {
 	res.Distinct = len(distinct)
 	res.Rule = "real aggregator Manager (NewManager, real store/signer/publishBlockInternal) commits 0..30 blocks in the main stream (30% requested empty; the first block is always the stored genesis block, empty) with initial height 1 (76%), 2 or 7; in 45% of the histories most non-empty blocks draw their transaction list from a pool of two (identical lists in several, also consecutive, blocks; 15% start with two or three such blocks pending together, optionally across a restart); histories of 3..maxLen items: publish bursts, single header/data submission iterations through the hooks, the unmodified HeaderSubmissionLoop+DataSubmissionLoop goroutines, restarts (NewManager on the same datastore); every DA call answered from a script over {accept all, accept k of n, not-included, in-mempool, too-big, error, deadline(60 s), account-sequence, accepted-but-error k (ack lost), cancel as context.Canceled or as the DA sentinel ErrContextCanceled}, 6% of scripts with a fault burst of 28..33 answers (> maxSubmitAttempts); 8% of scripts = 0..2 failures, 1..2 cancelled answers, 0..2 arbitrary answers, acceptance; script end = context cancellation; in 35% of the single iterations the aggregator commits blocks WHILE DA calls of the iteration are in flight (1..2 blocks, 70% with transactions, during about half of the calls: the DA double runs the real publishBlockInternal after it received the call and before it answers; model item CTickP, Model/SubmitterConc.v); after every loop item the oracle judges the unmodified loops themselves (context alive, more virtual time than all scripted answers can take: a loop that leaves DA answers unasked while a committed header / non-empty data is not on the DA layer has stopped retrying) and the number of answers each loop left is compared with the model (loop_left); 70% of histories end with an accepting phase on which the liveness clause is judged (if a committed header / non-empty data is still missing after it, the oracle keeps giving the node accepting iterations of both loop bodies for as long as they make any progress, and fails when one makes none); plus the long-stretch stream (6 cases per run, 14 per thorough shard, the first one fixed): initial height 1, 2 or 7, one or two stretches of 100..600 blocks of one kind committed in a row (88% without transactions = idle chain; lengths from {100,101,128,199,200,255,256,257,300,600} or uniform 100..600; one run-length item, HPublishN in the case file, expanded inside Coq) above the watermarks, each followed by 1..3 blocks with transactions, with header / data iterations before, between and after (scripts: accept all, a DA outage of 1..3 failures, acknowledgement lost for 1..150 blobs, a prefix of 1..150 blobs accepted, then acceptance; or an outage of 31 failures = a whole submitToDA call lost with hundreds of headers pending), restarts, the unmodified loops, and a closing phase (loops with 8 accepting answers each, then one accepting iteration of each kind) on which liveness is judged; long height lists are written as runs (Check.SubmitterCheck.runs); all in synctest bubbles (virtual time; elapsed backoff time is compared); non-trivial = at least one block and one DA call; distinct = distinct (initial height, model history) terms"
 	res.Cases = len(cases)
-	header := "From Coq Require Import NArith List Bool.\nFrom Verif Require Import Model.Submitter Model.SubmitterConc Check.SubmitterCheck."
+	header := "From Coq Require Import NArith List Bool.\nFrom Verif Require Import Model.Submitter Model.SubmitterConc Model.SubmitterWaiting Check.SubmitterCheck."
 	path := filepath.Join(e.Out, "cases_C06.v")
 	if err := vgen.WriteCases(path, header, defsAll, "ocase", cases, "mismatches"); err != nil {
 		t.Fatal(err)
